@@ -11,6 +11,7 @@ import (
 	"os"
 	"os/exec"
 	"sort"
+	"time"
 	. "zharness/hz"
 
 	"github.com/zenon-network/go-zenon/chain"
@@ -549,7 +550,14 @@ func runGenesis(rng *rand.Rand, n int, out *Out, _ []string) {
 			}
 		}
 		// fresh processes (map iteration order, allocation)
-		if i%4 == 0 {
+		if i%4 == 0 || cfg.GenesisTimestampSec <= 1 {
+			if cfg.GenesisTimestampSec <= 1 {
+				// the second construction happens in another wall-clock second
+				time.Sleep(1100 * time.Millisecond)
+				out.Count("gen:boundary-timestamp-rebuilt-in-another-second")
+				again := build(cfg)
+				out.Oracle(again.hash == b0.hash && bytes.Equal(again.dump, b0.dump), "process-changes-genesis", M{"config": i, "what": "rebuilt in the same process one second later", "timestamp": cfg.GenesisTimestampSec})
+			}
 			h, d, err := childBuild(cfg)
 			sum := sha256.Sum256(b0.dump)
 			out.Oracle(err == nil && h == b0.hash.String() && d == hex.EncodeToString(sum[:]), "process-changes-genesis", M{"config": i, "err": fmt.Sprint(err)})
